@@ -1,7 +1,7 @@
 """C20 — union impls are byte-wise and need an explicit `unsafe`."""
 import itertools
 
-from ..core import Case
+from ..core import shash, Case
 
 # (id, [(field type)], size, generics decl, instantiation)
 UNIONS = [
@@ -42,7 +42,7 @@ def build(u, nm, ts, tier):
         metas.append('Hash(unsafe)')
     if has('Clone'):
         metas += ['Copy', 'Clone']
-    if (hash(uid + nm + ts) % 2):
+    if (shash(uid + nm + ts) % 2):
         attrs = '#[educe(%s)]\n' % ', '.join(metas)
     else:
         attrs = ''.join('#[educe(%s)]\n' % m for m in metas)
